@@ -90,15 +90,21 @@ def parse_midres(il):
         return None
 
 
-def uncovered_cycle(il):
-    """For a grammar accepted with left-recursion support (verdict ok1): is there a cycle of the builder's own first graph
-    that passes through NO leader? Such a cycle is re-entered at the same offset without bound by the generated parser
+def uncovered_cycle(il, graph_from=None):
+    """For a grammar accepted with left-recursion support (verdict ok1): is there a cycle of the first graph that passes
+    through NO leader? Such a cycle is re-entered at the same offset without bound by the generated parser
     (theorem C08_cycle_without_leader_has_no_ranking; with every cycle covered: C08_left_recursive_parse_terminates).
+    The leader marks are the builder's; the graph is the builder's own or, with graph_from (a midres line of the Lean
+    model of the analysis), the model's - so that an analysis that LOSES an edge cannot hide the cycle it no longer sees.
     -> list of rule names on such a cycle, or None"""
     r = parse_midres(il)
     if r is None or r[0] != "ok1":
         return None
     _, rules, graph = r
+    if graph_from is not None:
+        rm = parse_midres(graph_from)
+        if rm is not None:
+            graph = rm[2]
     leaders = {n for n, (_, lr, ld) in rules.items() if lr == "1" and ld == "1"}
     # depth-first search in the graph without the edges into leaders
     color = {}
